@@ -177,13 +177,18 @@ def selftest():
     P = X.MathParser()
 
     def outcome(s):
-        P.cache = {}
+        """the grammar object + parse actions directly (MathParser.parse / raw_parse are code under test, not part of the shim contract)"""
+        from pyparsing import ParseException
+        P.reset_storage()
         try:
-            r = P.parse(s)
+            src = s.replace(' ', '')
+            tree = P.grammar.parseString(src)[0]
             names = lambda st: sorted((n.concrete() if isinstance(n, SymStr) else n) for n in st)   # noqa
-            return ('ok', tree_repr(r.tree), names(r.variables_used), names(r.functions_used), names(r.suffixes_used))
-        except CalcError as e:
-            return ('err', type(e).__name__)
+            out = ('ok', tree_repr(tree), names(P.variables_used), names(P.functions_used), names(P.suffixes_used))
+        except ParseException:
+            out = ('err', 'ParseException')
+        P.reset_storage()
+        return out
     plain = {s: outcome(s) for s in SELFTEST_STRINGS}
     E = Engine(mode='sym')
     set_engine(E)
